@@ -26,7 +26,7 @@ Import ListNotations.
 From HV Require Import lib.Harness model.Validity model.Builder spec.BuilderS proofs.BuilderP proofs.BuilderExtP
   spec.BuilderWFS proofs.BuilderFrameP proofs.BuilderRulesP proofs.BuilderTypeP
   proofs.BuilderAcyclicP proofs.BuilderNonLocalP proofs.BuilderInputsP proofs.BuilderLinearP proofs.BuilderCopyP
-  model.Builder2 proofs.Builder2EmbP spec.Builder2WFS proofs.Builder2P proofs.Builder2FrameP proofs.Builder2RulesP proofs.Builder2TypeP.
+  model.Builder2 proofs.Builder2EmbP spec.Builder2WFS proofs.Builder2P proofs.Builder2FrameP proofs.Builder2RulesP proofs.Builder2TypeP proofs.Builder2NonLocalP.
 
 (* Proved for ALL programs of the modelled language, with no well-formedness premise: whenever the
    builder calls do not raise, the serialised document satisfies
@@ -252,8 +252,8 @@ Print Assumptions C01_builder2_root_func_cfg.
                                 re-indexed edges of inserted programs and the wires into TailLoop / Conditional / inserted
                                 roots;
      r_const (rule 17)        : constants inhabit their type.
-   Rules 8-12, 14, 15 are proved for the embedded language only (C01_builder2_valid_embedded) and monitored for the rest
-   of the extended language. *)
+   Rule 8 and rules 12, 14, 15 follow below; rules 9, 10, 11 are proved for the embedded language only
+   (C01_builder2_valid_embedded) and monitored for the rest of the extended language. *)
 Theorem C01_builder2_typed_rules : forall tys p g,
   wt_prog2 tys p = true -> croot_ok p = true -> run2 tys p = Ok g ->
   r_io_rows g = true /\ r_derived_types tys g = true /\ r_port_counts g = true /\ r_edge_kinds g = true /\
@@ -272,3 +272,35 @@ Theorem C01_loop_rest_refuted : wt_prog2 ex_rest_tys ex_rest = false /\ croot_ok
   exists g, run2 ex_rest_tys ex_rest = Ok g /\ r_io_rows g = false.
 Proof. exact ex_rest_refuted. Qed.
 Print Assumptions C01_loop_rest_refuted.
+
+(* Third pass.  r_inputs_once (rule 8) for every well-typed program of the EXTENDED language: every value / static
+   input port of every non-root node has exactly one link — the ports of TailLoop / Conditional / CallIndirect nodes and
+   of the root of an inserted program are wired once each by _wire_up, the Output node of every region by set_outputs,
+   and insert_hugr re-indexes the inner program's links one to one (no inner link touches the inner root). *)
+Theorem C01_builder2_inputs_once : forall tys p g,
+  wt_prog2 tys p = true -> croot_ok p = true -> run2 tys p = Ok g -> r_inputs_once g = true.
+Proof. exact run2_inputs_once. Qed.
+Print Assumptions C01_builder2_inputs_once.
+
+(* Third pass.  For ALL programs of the extended language (premise croot_ok only), the non-local edges:
+     r_ext_order_edge (rule 14)    : every value edge that enters a nested region — a DFG, a TailLoop body, a Case of a
+                                     Conditional, at any depth, also inside and into inserted programs — has its state-order
+                                     edge from the source to the sibling ancestor of the target;
+     r_nonlocal_relation (rule 12) : every non-local edge is an Ext edge or a static edge from an enclosing region;
+     r_dominance (rule 15)         : no edge is classified as a Dom edge.
+   Store level: ExtOrder and ConstLinks are invariants of exec2 (Hugr.insert_hugr keeps the ancestor relations of the
+   re-indexed links); then the bridge to the validator's fuelled ancestor walk on the serialised document. *)
+Theorem C01_builder2_nonlocal_edges : forall tys p g,
+  croot_ok p = true -> run2 tys p = Ok g ->
+  r_nonlocal_relation tys g = true /\ r_ext_order_edge tys g = true /\ r_dominance tys g = true.
+Proof. exact run2_nonlocal. Qed.
+Print Assumptions C01_builder2_nonlocal_edges.
+
+(* non-vacuity: a conditional whose cases use a wire of the enclosing region, one of them through an inserted Dfg:
+   the premises hold, `valid` accepts the document, and it has a good non-local value edge *)
+Theorem C01_builder2_nonlocal_example : croot_ok ex5_prog = true /\ wt_prog2 ex5_tys ex5_prog = true /\
+  exists g, run2 ex5_tys ex5_prog = Ok g /\
+  valid {| v_tys := ex5_tys; v_main := g; v_subs := [] |} = true /\
+  existsb (fun r => ecode_eqb (classify ex5_tys g (redges g) r) EOk && negb (is_static (r_kind r))) (redges g) = true.
+Proof. exact ex5_nonlocal. Qed.
+Print Assumptions C01_builder2_nonlocal_example.
